@@ -296,6 +296,20 @@ class Lane:
             m.on_load(ctx, self, self.manager, self.generation)
         return self.manager
 
+    def _hand_over(self, frame, mode):
+        """The frame as the driver passes it on: the looked-up object itself, or a FrameGroundTruth built by the driver."""
+        if mode == "as_is":
+            return frame
+        R = self.ctx.R
+        mats = []
+        for key, m in frame.transforms.items():
+            if mode == "reverse" and key == (R["FrameID"].BASE_LINK, R["FrameID"].MAP):
+                m = m.inv()   # ego pose registered as map -> base_link only
+            mats.append(m)
+        self.ctx.probe("frame_handed_over_" + mode)
+        return R["FrameGroundTruth"](unix_time=frame.unix_time, frame_name=frame.frame_name, objects=list(frame.objects),
+                                     transforms=mats, raw_data=frame.raw_data)
+
     def _config_object(self, kind, spec, maker):
         """Per-delivery configuration objects: rebuilt every time, or (plan flag) one object per distinct spec that is
         handed to every delivery using that spec, as a driver keeping its configs around would do."""
@@ -399,6 +413,8 @@ class Lane:
             # of such steps are judged with a correspondingly wider indeterminacy band
             st.ego_ref = ctx.ego_for_time(frame.unix_time)
             st.eps = 1e-5
+        frame = self._hand_over(frame, plan.get("frame_handoff", "as_is"))
+        st.frame = frame
         est_time = int(frame.unix_time) if plan.get("stamp_as_gt_time") else msg["stamp"]
         cache_key = (self.generation, op["mid"], st.frame_kind, st.frame_index, est_time)
         if plan.get("reuse_estimates") and cache_key in self._estimate_cache:
